@@ -30,13 +30,17 @@ class Ctx:
     def probe(self, name, n=1):
         self.probes[name] = self.probes.get(name, 0) + n
 
-    def violation(self, clause, sig, detail, stop=True):
+    def violation(self, clause, sig, detail, stop=True, cont=False):
         """record a violation; returns True if it is a listed known finding (the run may continue),
         otherwise ends the run (StopRun) unless stop=False"""
         if match_known(self._known_list, self.check_id, clause, sig) is not None:
             if len(self.known) < 50:
                 self.known.append({'clause': clause, 'sig': sig})
-            return True
+            if cont:
+                return True
+            # the state of the system under test is no longer trustworthy after a (known) defect fired:
+            # end this run quietly so that consequences of it are not reported as something new
+            raise StopRun
         self.violations.append({'clause': clause, 'sig': sig, 'detail': detail,
                                 't': round(self.s.now, 6), 'step': self.s.steps})
         self.s.note(f'VIOLATION {clause} {sig}')
